@@ -128,6 +128,26 @@ def check(R):
             R.expect('P5', PR + '::' + acc, f'the encoder-side accessor tests the {flag} flag', cs == {flag}, f'contains({flag})', f'tests {sorted(cs)}')
         SR = 'sc::StatusReport'
         codec_agreement(R, SR + '::write', SR + '::read', SR, 3)
+        # bulk transfer: the range-control byte selects which optional fields follow and how wide they are.  Writer and parser must look at
+        # the same flags, and the parser must take every flag it branches on from the RECEIVED byte (a flag re-built from a default makes
+        # the parser read a 4-octet length where the writer put 8)
+        RC = 'bdx::RangeControl'
+        FLAGS = ('def_len', 'start_offset', 'wide_range')
+        for msg in ('bdx::TransferInit', 'bdx::TransferAccept'):
+            pb, wbd = R.body(msg + '::parse'), R.body(msg + '::write')
+            rd = {f: prims.field_read_locals(pb, f + ':' + RC) for f in FLAGS}
+            wr = {f: prims.field_read_locals(wbd, f + ':' + RC) for f in FLAGS}
+            R.floor(f'range-control flags evaluated by {msg}::write', len([f for f in FLAGS if wr[f]]), 2)
+            R.expect('P5', msg, 'parser and writer evaluate the same range-control flags', {f for f in FLAGS if rd[f]} == {f for f in FLAGS if wr[f]},
+                     f'{sorted(f for f in FLAGS if rd[f])}', f'parse evaluates {sorted(f for f in FLAGS if rd[f])}, write evaluates {sorted(f for f in FLAGS if wr[f])}')
+            bad = []
+            for f in FLAGS:
+                for l in sorted(rd[f]):
+                    ss = prims.sources(pb, l)
+                    if RC + '::from_byte' not in src_calls(ss) or any(x[0] == 'agg' and x[1] == RC for x in ss) or any(c.endswith('Default>::default') or c.endswith('Default::default') for c in src_calls(ss)):
+                        bad.append(f)
+            R.expect('P10', msg + '::parse', 'every range-control flag the parser branches on is the received byte\'s (RangeControl::from_byte)', not bad,
+                     'flags <= RangeControl::from_byte(rb.le_u8())', f'{sorted(set(bad))} is not (only) taken from the received byte: the parser and the writer disagree on the layout that follows')
 
     # ---- b --------------------------------------------------------------------
     with R.clause('b'):
